@@ -34,6 +34,9 @@ type Prop struct {
 	Kind string `json:"kind"`
 	Hash string `json:"hash,omitempty"`
 	Raw  string `json:"raw,omitempty"`
+	// MsgAmount (mode msg): the amount of the deposit MESSAGE (decimal, 18 decimals); the proposal's
+	// amount is then what the real message handler makes of it, Amount only sized the UTXO set
+	MsgAmount string `json:"msg_amount,omitempty"`
 }
 
 type Utxo struct {
@@ -53,6 +56,12 @@ type Case struct {
 	Bridge     string  `json:"bridge"`   // 32-byte taproot output key of the bridge address (hex)
 	Cid        string  `json:"cid"`
 	UploadFail bool    `json:"upload_fail,omitempty"`
+	// Mode: "" rawTx from a ready-made proposal list | "msg" deposit messages -> real message handler
+	// -> rawTx | "exec" one delivery over several resources through the real Executor.Execute
+	Mode string `json:"mode,omitempty"`
+	// EProps (mode exec): resource index of every proposal of the delivery (deposit nonce = position)
+	EProps []int  `json:"eprops,omitempty"`
+	Mid    string `json:"mid,omitempty"`
 }
 
 type In struct {
@@ -73,6 +82,11 @@ type Res struct {
 }
 type Obs struct {
 	Runs []Res `json:"runs"`
+	// mode msg: amounts of the proposals the handler produced (HandlerErr: it refused a message)
+	Amts       []uint64 `json:"amts,omitempty"`
+	HandlerErr string   `json:"handler_err,omitempty"`
+	// mode exec: per schedule the transactions Execute started to build
+	ERuns [][]EGroup `json:"eruns,omitempty"`
 }
 
 // ---- the fake mempool service ---------------------------------------------------------------
@@ -192,10 +206,22 @@ func recipientString(p Prop, net string) string {
 }
 
 func run(c Case) Obs {
+	if c.Mode == "exec" {
+		return runExec(c)
+	}
 	par := params(c.Net)
 	bridgeAddr := must(btcutil.NewAddressTaproot(must(hex.DecodeString(c.Bridge)), par))
 	resource := btcconfig.Resource{Address: bridgeAddr, ResourceID: [32]byte{1}, Script: []byte{0x51}}
 	var obs Obs
+	var msgProps []*btcexec.BtcTransferProposal
+	if c.Mode == "msg" {
+		var err error
+		msgProps, obs.Amts, err = proposalsFromMessages(c)
+		if err != nil {
+			obs.HandlerErr = err.Error()
+			return obs
+		}
+	}
 	for _, perm := range c.Listings {
 		listing := make([]Utxo, len(perm))
 		for i, j := range perm {
@@ -208,6 +234,10 @@ func run(c Case) Obs {
 		for i, p := range c.Props {
 			props[i] = &btcexec.BtcTransferProposal{Source: 1, Destination: 2, Data: btcexec.BtcTransferProposalData{
 				Amount: p.Amount, Recipient: recipientString(p, c.Net), DepositNonce: uint64(i + 1), ResourceId: [32]byte{1}}}
+			if c.Mode == "msg" {
+				cp := *msgProps[i]
+				props[i] = &cp
+			}
 		}
 		e := btcexec.NewExecutor(nil, nil, nil, nil, nil, nil, mempool.NewMempoolAPI(srv.URL),
 			map[[32]byte]btcconfig.Resource{{1}: resource}, *par, &sync.RWMutex{}, uploaderFake{cid: c.Cid, fail: c.UploadFail})
@@ -409,10 +439,16 @@ func genUtxos(r *vgen.Rng, n int, total uint64) []Utxo {
 	return us
 }
 
-func genCase(r *vgen.Rng, class string) Case {
+func genCase(r *vgen.Rng, class string) Case { return genCaseWith(r, class, nil) }
+
+// genCaseWith: amts != nil fixes the number of proposals and their amounts.
+func genCaseWith(r *vgen.Rng, class string, amts []uint64) Case {
 	c := Case{Class: class, Net: vgen.Pick(r, nets), Bridge: hex.EncodeToString(r.Bytes(32)),
 		Cid: vgen.Pick(r, []string{"QmYwAPJzv5CZsnA625s3Xf2nemtYgPpHdWEz79ojWnPbdG", "bafybeigdyrzt5sfp7udm7hu76uh7y26nf3efuylqabf3oclgtqy55fbzdi", "Qm", ""})}
-	np := r.Range(1, 5) // Execute never builds a transaction for an empty proposal list
+	np := len(amts)
+	if amts == nil {
+		np = r.Range(1, 5) // Execute never builds a transaction for an empty proposal list
+	}
 	var out uint64
 	for i := 0; i < np; i++ {
 		amt := uint64(r.Range(0, 3000))
@@ -421,6 +457,9 @@ func genCase(r *vgen.Rng, class string) Case {
 			amt = uint64(r.U64() % 100000000000)
 		case 1:
 			amt = uint64(r.Range(546, 100000))
+		}
+		if amts != nil {
+			amt = amts[i]
 		}
 		k := vgen.Pick(r, validKinds)
 		if r.Chance(1, 8) {
@@ -550,6 +589,8 @@ func gen(r *vgen.Rng, tier string) []Case {
 		c.Listings = listings(r, n, 4, 6)
 		out = append(out, c)
 	}
+	out = append(out, genMsg(r, tier)...)
+	out = append(out, genExec(r, tier)...)
 	return out
 }
 
@@ -615,6 +656,16 @@ func coqRes(r Res) string {
 }
 
 func coq(c Case, o Obs) string {
+	if c.Mode == "exec" {
+		return coqExec(c, o)
+	}
+	if c.Mode == "msg" {
+		ms := vgen.ListOf(c.Props, func(p Prop) string { return "(" + p.MsgAmount + ")%Z" })
+		return "MsgCase " + ms + " " + vgen.ListOf(c.Props, coqProp) + "\n    " + vgen.ListOf(c.Utxos, coqUtxo) + "\n    " +
+			vgen.ListOf(c.Listings, func(p []int) string { return vgen.ListOf(p, vgen.Nat) }) + " " +
+			zu(c.Rate) + " " + pack(must(hex.DecodeString(c.Bridge))) + " " + pack([]byte(c.Cid)) + " " +
+			vgen.Bool(!c.UploadFail) + " " + vgen.ListOf(o.Amts, zu) + "\n    " + vgen.ListOf(o.Runs, coqRes)
+	}
 	return "Case " + vgen.ListOf(c.Props, coqProp) + "\n    " + vgen.ListOf(c.Utxos, coqUtxo) + "\n    " +
 		vgen.ListOf(c.Listings, func(p []int) string { return vgen.ListOf(p, vgen.Nat) }) + " " +
 		zu(c.Rate) + " " + pack(must(hex.DecodeString(c.Bridge))) + " " + pack([]byte(c.Cid)) + " " +
@@ -636,6 +687,6 @@ func main() {
 			return len(c.Props) > 0 && len(c.Utxos) > 0
 		},
 		ShardSize: 150,
-		Rule:      "1..5 proposals (all six recipient classes, accepted other-network segwit prefixes, invalid recipients), 0..10 UTXOs with equal block times / several outputs of one transaction, bridge totals aimed at out, out+fee_estimate, out+fee(k), out+fee(n), out+fee(1) each -2..+2 and random slack, fee rates around the rounding steps 0..500, every listing order for n<=3 (n<=4 for tie cases) else identity+reverse+2 shuffles; failing uploader, over-long CID, malformed and non-canonical txids; distinct = distinct input JSON; non-trivial = at least one proposal and one UTXO",
+		Rule:      "1..5 proposals (all six recipient classes, accepted other-network segwit prefixes, invalid recipients), 0..10 UTXOs with equal block times / several outputs of one transaction, bridge totals aimed at out, out+fee_estimate, out+fee(k), out+fee(n), out+fee(1) each -2..+2 and random slack, fee rates around the rounding steps 0..500, every listing order for n<=3 (n<=4 for tie cases) else identity+reverse+2 shuffles; failing uploader, over-long CID, malformed and non-canonical txids; message level: 1..4 deposit messages through the real FungibleMessageHandler with amounts around 2^64 base units (+-2, x2..x5, powers of two 2^60..2^80), around multiples of 10^10 (remainders), up to the 21e14-satoshi supply x 10^10 and beyond 2^64 x 10^10, then rawTx as above; Execute level: every assignment of 2..4 proposals to three resources spanning at least two + random deliveries of up to 10 proposals over 2..4 resources, each through the real Executor.Execute under four schedules; distinct = distinct input JSON; non-trivial = at least one proposal and one UTXO (Execute level: at least two resources)",
 	})
 }
